@@ -35,7 +35,7 @@ mutual
     | .ite [(c, t)] none => inFragment c && inFragment t
     | .ite [(c, t)] (some e) => inFragment c && inFragment t && inFragment e
     | .defs ds f => inFragmentDefs ds && inFragment f
-    | .call name args => (name.splitOn "::").length ≤ 1 && inFragmentList args
+    | .call name args => !isQualified name && inFragmentList args
     | .var _ => true
     | _ => false
   def inFragmentList : List Term → Bool
